@@ -12,32 +12,32 @@ package cose
 
 //@ func I2OSP
 //@   requires x_nonnil: x != nil
-//@   ensures iff [C03, C16, C17, C20]: err == nil <==> (bigval(x) >= 0 && bitlen(bigval(x)) <= 8 * len(buf))
-//@   ensures val [C03, C16, C17, C20]: err == nil ==> bytes(buf) == bebytes(bigval(x), len(buf))
-//@   ensures unchanged_on_err [C03, C16, C17, C20]: err != nil ==> bytes(buf) == old(bytes(buf))
-//@   modifies frame [C18]: elems(buf)
+//@   ensures iff [C03, C06, C16, C17, C20]: err == nil <==> (bigval(x) >= 0 && bitlen(bigval(x)) <= 8 * len(buf))
+//@   ensures val [C03, C06, C16, C17, C20]: err == nil ==> bytes(buf) == bebytes(bigval(x), len(buf))
+//@   ensures unchanged_on_err [C03, C06, C16, C17, C20]: err != nil ==> bytes(buf) == old(bytes(buf))
+//@   modifies frame [C06, C18]: elems(buf)
 
 //@ func OS2IP
-//@   ensures fresh_val [C03, C16, C17, C20]: result != nil && fresh(result) && bigval(result) == be(bytes(x))
-//@   modifies frame [C18]: nothing
+//@   ensures fresh_val [C03, C06, C16, C17, C20]: result != nil && fresh(result) && bigval(result) == be(bytes(x))
+//@   modifies frame [C06, C18]: nothing
 
 //@ spec orderbytes(c elliptic.Curve) Int = (orderbits(c) + 7) / 8
 
 //@ func encodeECDSASignature
 //@   requires nonnil: curve != nil && r != nil && s != nil
-//@   ensures iff [C03, C16, C17, C20]: err == nil <==> (bigval(r) >= 0 && bitlen(bigval(r)) <= 8 * orderbytes(curve) && bigval(s) >= 0 && bitlen(bigval(s)) <= 8 * orderbytes(curve))
-//@   ensures form [C03, C16, C17, C20]: err == nil ==> len(result) == 2 * orderbytes(curve) && fresh(result)
+//@   ensures iff [C03, C06, C16, C17, C20]: err == nil <==> (bigval(r) >= 0 && bitlen(bigval(r)) <= 8 * orderbytes(curve) && bigval(s) >= 0 && bitlen(bigval(s)) <= 8 * orderbytes(curve))
+//@   ensures form [C03, C06, C16, C17, C20]: err == nil ==> len(result) == 2 * orderbytes(curve) && fresh(result)
 //@       && bytes(result[:orderbytes(curve)]) == bebytes(bigval(r), orderbytes(curve))
 //@       && bytes(result[orderbytes(curve):]) == bebytes(bigval(s), orderbytes(curve))
-//@   ensures err_nil_bytes [C03, C16, C17, C20]: err != nil ==> result == nil
-//@   modifies frame [C18]: nothing
+//@   ensures err_nil_bytes [C03, C06, C16, C17, C20]: err != nil ==> result == nil
+//@   modifies frame [C06, C18]: nothing
 
 //@ func decodeECDSASignature
 //@   requires nonnil: curve != nil
-//@   ensures iff [C03, C16, C17, C20]: err == nil <==> len(sig) == 2 * orderbytes(curve)
-//@   ensures vals [C03, C16, C17, C20]: err == nil ==> r != nil && s != nil && fresh(r) && fresh(s)
+//@   ensures iff [C03, C06, C16, C17, C20]: err == nil <==> len(sig) == 2 * orderbytes(curve)
+//@   ensures vals [C03, C06, C16, C17, C20]: err == nil ==> r != nil && s != nil && fresh(r) && fresh(s)
 //@       && bigval(r) == be(bytes(sig[:orderbytes(curve)])) && bigval(s) == be(bytes(sig[orderbytes(curve):]))
-//@   modifies frame [C18]: nothing
+//@   modifies frame [C06, C18]: nothing
 
 // ===================================================================
 // algorithm.go  (C17)
@@ -46,14 +46,14 @@ package cose
 //@ spec hashid(a Algorithm) Int = (a == -37 || a == -7 || a == -16) ? 5 : ((a == -38 || a == -35 || a == -43) ? 6 : ((a == -39 || a == -36 || a == -44) ? 7 : 0))
 
 //@ func (Algorithm).hashFunc
-//@   ensures table [C03, C12, C17, C20]: result == hashid(a)
-//@   modifies frame [C18]: nothing
+//@   ensures table [C03, C06, C12, C17, C20]: result == hashid(a)
+//@   modifies frame [C06, C18]: nothing
 
 //@ func computeHash
-//@   ensures avail [C03, C17, C20]: err == nil <==> hash_available(h)
-//@   ensures digest [C03, C17, C20]: err == nil ==> bytes(result) == hash_of(h, bytes(data)) && fresh(result)
-//@   ensures err_nil [C03, C17, C20]: err != nil ==> result == nil && err == ErrUnavailableHashFunc
-//@   modifies frame [C18]: nothing
+//@   ensures avail [C03, C06, C17, C20]: err == nil <==> hash_available(h)
+//@   ensures digest [C03, C06, C17, C20]: err == nil ==> bytes(result) == hash_of(h, bytes(data)) && fresh(result)
+//@   ensures err_nil [C03, C06, C17, C20]: err != nil ==> result == nil && err == ErrUnavailableHashFunc
+//@   modifies frame [C06, C18]: nothing
 
 // ===================================================================
 // ecdsa.go signers / verifier  (C16, C17, C03, C20)
@@ -216,38 +216,38 @@ package cose
 
 //@ func NewSigner
 //@   requires valid: key != nil && validPub(crypto_public(key)) && (key is *ecdsa.PrivateKey ==> key.(*ecdsa.PrivateKey) != nil)
-//@   ensures iff [C17]: err == nil <==> ((isPS(alg) && crypto_public(key) is *rsa.PublicKey && bitlen(abs(bigval(crypto_public(key).(*rsa.PublicKey).N))) >= 2048)
+//@   ensures iff [C06, C17]: err == nil <==> ((isPS(alg) && crypto_public(key) is *rsa.PublicKey && bitlen(abs(bigval(crypto_public(key).(*rsa.PublicKey).N))) >= 2048)
 //@       || (isES(alg) && crypto_public(key) is *ecdsa.PublicKey)
 //@       || (alg == -8 && crypto_public(key) is ed25519.PublicKey))
-//@   ensures alg_reported [C17]: err == nil ==> result != nil
+//@   ensures alg_reported [C06, C17]: err == nil ==> result != nil
 //@       && (isPS(alg) ==> result is *rsaSigner && result.(*rsaSigner) != nil && result.(*rsaSigner).alg == alg && result.(*rsaSigner).key == key)
 //@       && (isES(alg) && key is *ecdsa.PrivateKey ==> result is *ecdsaKeySigner && result.(*ecdsaKeySigner) != nil && result.(*ecdsaKeySigner).alg == alg && result.(*ecdsaKeySigner).key == key.(*ecdsa.PrivateKey))
 //@       && (isES(alg) && !(key is *ecdsa.PrivateKey) ==> result is *ecdsaCryptoSigner && result.(*ecdsaCryptoSigner) != nil && result.(*ecdsaCryptoSigner).alg == alg
 //@             && result.(*ecdsaCryptoSigner).key == crypto_public(key).(*ecdsa.PublicKey) && result.(*ecdsaCryptoSigner).signer == key)
 //@       && (alg == -8 ==> result is *ed25519Signer && result.(*ed25519Signer) != nil && result.(*ed25519Signer).key == key)
-//@   ensures errors [C17]: err != nil ==> result == nil
+//@   ensures errors [C06, C17]: err != nil ==> result == nil
 //@       && ((alg == 0 || isRS(alg) || !(isPS(alg) || isES(alg) || alg == -8)) ==> Is(err, ErrAlgorithmNotSupported))
 //@       && (isPS(alg) && !(crypto_public(key) is *rsa.PublicKey) ==> Is(err, ErrInvalidPubKey))
 //@       && (isES(alg) && !(crypto_public(key) is *ecdsa.PublicKey) ==> Is(err, ErrInvalidPubKey))
 //@       && (alg == -8 && !(crypto_public(key) is ed25519.PublicKey) ==> Is(err, ErrInvalidPubKey))
-//@   modifies frame [C18]: nothing
+//@   modifies frame [C06, C18]: nothing
 
 //@ func NewVerifier
 //@   requires valid: validPub(key)
-//@   ensures iff [C17]: err == nil <==> ((isPS(alg) && key is *rsa.PublicKey && bitlen(abs(bigval(key.(*rsa.PublicKey).N))) >= 2048)
+//@   ensures iff [C06, C17]: err == nil <==> ((isPS(alg) && key is *rsa.PublicKey && bitlen(abs(bigval(key.(*rsa.PublicKey).N))) >= 2048)
 //@       || (isES(alg) && key is *ecdsa.PublicKey && ecdh_err(ecpub(key.(*ecdsa.PublicKey))) == nil)
 //@       || (alg == -8 && key is ed25519.PublicKey))
-//@   ensures alg_reported [C17]: err == nil ==> result != nil
+//@   ensures alg_reported [C06, C17]: err == nil ==> result != nil
 //@       && (isPS(alg) ==> result is *rsaVerifier && result.(*rsaVerifier) != nil && result.(*rsaVerifier).alg == alg && result.(*rsaVerifier).key == key.(*rsa.PublicKey))
 //@       && (isES(alg) ==> result is *ecdsaVerifier && result.(*ecdsaVerifier) != nil && result.(*ecdsaVerifier).alg == alg && result.(*ecdsaVerifier).key == key.(*ecdsa.PublicKey))
 //@       && (alg == -8 ==> result is *ed25519Verifier && result.(*ed25519Verifier) != nil && result.(*ed25519Verifier).key == key.(ed25519.PublicKey))
-//@   ensures errors [C17]: err != nil ==> result == nil
+//@   ensures errors [C06, C17]: err != nil ==> result == nil
 //@       && ((alg == 0 || isRS(alg) || !(isPS(alg) || isES(alg) || alg == -8)) ==> Is(err, ErrAlgorithmNotSupported))
 //@       && (isPS(alg) && !(key is *rsa.PublicKey) ==> Is(err, ErrInvalidPubKey))
 //@       && (isES(alg) && !(key is *ecdsa.PublicKey) ==> Is(err, ErrInvalidPubKey))
 //@       && (isES(alg) && key is *ecdsa.PublicKey && ecdh_err(ecpub(key.(*ecdsa.PublicKey))) != nil ==> Is(err, ErrInvalidPubKey))
 //@       && (alg == -8 && !(key is ed25519.PublicKey) ==> Is(err, ErrInvalidPubKey))
-//@   modifies frame [C18]: nothing
+//@   modifies frame [C06, C18]: nothing
 
 // ===================================================================
 // cbor.go  (C02, C05, C06, C07)
@@ -357,7 +357,7 @@ package cose
 // alg parameter of a protected bucket, as the properties see it
 //@ spec algPresent(p ProtectedHeader) Bool = has(asmap(p), 1)
 // (header maps in the supported data model have unique labels after normalisation; the encoders refuse anything else)
-//@ spec uniqueLabels(h map[any]any) Bool = forall k1 any, k2 any :: k1 in h && k2 in h && isIntKey(k1) && isIntKey(k2) && intOf(k1) == intOf(k2) ==> k1 == k2
+//@ spec uniqueLabels(h map[any]any) Bool = forall k1 any, k2 any :: k1 in mapdom(h) && k2 in mapdom(h) && isIntKey(k1) && isIntKey(k2) && intOf(k1) == intOf(k2) ==> k1 == k2
 //@ spec algAgrees(p ProtectedHeader, alg Algorithm) Bool = exists k any :: k in asmap(p) && isIntKey(k) && intOf(k) == 1 && algIsInt(asmap(p)[k]) && algInt(asmap(p)[k]) == alg
 //@ spec algIntMismatch(p ProtectedHeader, alg Algorithm) Bool = exists k any :: k in asmap(p) && isIntKey(k) && intOf(k) == 1 && algIsInt(asmap(p)[k]) && algInt(asmap(p)[k]) != alg
 
@@ -386,16 +386,16 @@ package cose
 
 //@ func (*Sign1Message).Verify
 //@   requires verifier_nonnil: verifier != nil
-//@   ensures once [C03, C04, C20]: vepoch() == old(vepoch()) || vepoch() == old(vepoch()) + 1
-//@   ensures sound [C03, C20]: result == nil ==> m != nil && m.Payload != nil && len(m.Signature) > 0 && vepoch() == old(vepoch()) + 1
-//@   ensures verbatim [C02, C03, C20]: vepoch() == old(vepoch()) + 1 ==> m != nil
+//@   ensures once [C03, C04, C06, C20]: vepoch() == old(vepoch()) || vepoch() == old(vepoch()) + 1
+//@   ensures sound [C03, C06, C20]: result == nil ==> m != nil && m.Payload != nil && len(m.Signature) > 0 && vepoch() == old(vepoch()) + 1
+//@   ensures verbatim [C02, C03, C06, C20]: vepoch() == old(vepoch()) + 1 ==> m != nil
 //@         && result == verifier_verify(verifier, old(Sig1(ProtBytes(m.Headers), external, m.Payload)), old(bytes(m.Signature)))
-//@   ensures gate [C04]: m != nil && vepoch() != old(vepoch())
+//@   ensures gate [C04, C06]: m != nil && vepoch() != old(vepoch())
 //@         ==> (algPresent(m.Headers.Protected) ==> algAgrees(m.Headers.Protected, verifier_alg(verifier))) && (algPresent(m.Headers.Protected) || len(external) > 0)
-//@   ensures mismatch [C04]: m != nil && m.Payload != nil && len(m.Signature) > 0 && uniqueLabels(asmap(m.Headers.Protected)) && algIntMismatch(m.Headers.Protected, verifier_alg(verifier))
+//@   ensures mismatch [C04, C06]: m != nil && m.Payload != nil && len(m.Signature) > 0 && uniqueLabels(asmap(m.Headers.Protected)) && algIntMismatch(m.Headers.Protected, verifier_alg(verifier))
 //@         ==> result != nil && Is(result, ErrAlgorithmMismatch)
-//@   ensures precheck [C03]: (m == nil || m.Payload == nil || len(m.Signature) == 0) ==> result != nil && vepoch() == old(vepoch())
-//@   modifies frame [C18]: nothing
+//@   ensures precheck [C03, C06]: (m == nil || m.Payload == nil || len(m.Signature) == 0) ==> result != nil && vepoch() == old(vepoch())
+//@   modifies frame [C06, C18]: nothing
 
 //@ func (*Sign1Message).Sign
 //@   requires signer_nonnil: signer != nil
@@ -460,34 +460,34 @@ package cose
 
 //@ func (*SignMessage).Verify
 //@   requires verifiers_nonnil: forall i Int :: 0 <= i && i < len(verifiers) ==> verifiers[i] != nil
-//@   ensures sound [C11, C03, C20]: result == nil ==> m != nil && m.Payload != nil && len(m.Signatures) > 0 && len(m.Signatures) == len(verifiers)
+//@   ensures sound [C03, C06, C11, C20]: result == nil ==> m != nil && m.Payload != nil && len(m.Signatures) > 0 && len(m.Signatures) == len(verifiers)
 //@         && vepoch() == old(vepoch()) + len(m.Signatures)
 //@         && (forall i Int :: 0 <= i && i < len(m.Signatures) ==> sigVerified(m, i, verifiers[i], external))
-//@   ensures count [C11]: m != nil && len(m.Signatures) != len(verifiers) ==> result != nil && vepoch() == old(vepoch())
-//@   ensures precheck [C11]: (m == nil || m.Payload == nil || len(m.Signatures) == 0) ==> result != nil && vepoch() == old(vepoch())
-//@   modifies frame [C18]: nothing
-//@   loop 1 invariant bounds [C11]: 0 <= idx && idx <= len(m.Signatures) && len(m.Signatures) == len(verifiers) && m.Payload != nil
-//@   loop 1 invariant counted [C11]: vepoch() == old(vepoch()) + idx
-//@   loop 1 invariant prefix_ok [C11]: forall j Int :: 0 <= j && j < idx ==> sigVerified(m, j, verifiers[j], external)
-//@   callsite positional [C11] (*Signature).Verify#1: arg0 == m.Signatures[idx] && arg1 == verifiers[idx] && arg3 == m.Payload && arg4 == external && bytes(arg2) == ProtBytes(m.Headers)
+//@   ensures count [C06, C11]: m != nil && len(m.Signatures) != len(verifiers) ==> result != nil && vepoch() == old(vepoch())
+//@   ensures precheck [C06, C11]: (m == nil || m.Payload == nil || len(m.Signatures) == 0) ==> result != nil && vepoch() == old(vepoch())
+//@   modifies frame [C06, C18]: nothing
+//@   loop 1 invariant bounds [C06, C11]: 0 <= idx && idx <= len(m.Signatures) && len(m.Signatures) == len(verifiers) && m.Payload != nil
+//@   loop 1 invariant counted [C06, C11]: vepoch() == old(vepoch()) + idx
+//@   loop 1 invariant prefix_ok [C06, C11]: forall j Int :: 0 <= j && j < idx ==> sigVerified(m, j, verifiers[j], external)
+//@   callsite positional [C06, C11] (*Signature).Verify#1: arg0 == m.Signatures[idx] && arg1 == verifiers[idx] && arg3 == m.Payload && arg4 == external && bytes(arg2) == ProtBytes(m.Headers)
 
 //@ func (*SignMessage).Sign
 //@   requires signers_nonnil: forall i Int :: 0 <= i && i < len(signers) ==> signers[i] != nil
 //@   requires distinct_slots: m != nil ==> (forall i Int, j Int :: 0 <= i && i < j && j < len(m.Signatures) ==> m.Signatures[i] != m.Signatures[j])
-//@   ensures all_or_error [C11, C20]: err == nil ==> m != nil && m.Payload != nil && len(m.Signatures) > 0 && len(m.Signatures) == len(signers)
+//@   ensures all_or_error [C06, C11, C20]: err == nil ==> m != nil && m.Payload != nil && len(m.Signatures) > 0 && len(m.Signatures) == len(signers)
 //@         && epoch() == old(epoch()) + len(m.Signatures)
-//@   ensures count [C11]: m != nil && len(m.Signatures) != len(signers) ==> err != nil && epoch() == old(epoch())
-//@   ensures precheck [C11, C20]: (m == nil || m.Payload == nil || len(m.Signatures) == 0) ==> err != nil && epoch() == old(epoch())
-//@   ensures shape_kept [C11, C20]: m != nil ==> m.Signatures == old(m.Signatures) && m.Payload == old(m.Payload)
-//@   loop 1 invariant bounds [C11, C20]: 0 <= idx && idx <= len(m.Signatures) && len(m.Signatures) == len(signers) && m.Payload != nil
+//@   ensures count [C06, C11]: m != nil && len(m.Signatures) != len(signers) ==> err != nil && epoch() == old(epoch())
+//@   ensures precheck [C06, C11, C20]: (m == nil || m.Payload == nil || len(m.Signatures) == 0) ==> err != nil && epoch() == old(epoch())
+//@   ensures shape_kept [C06, C11, C20]: m != nil ==> m.Signatures == old(m.Signatures) && m.Payload == old(m.Payload)
+//@   loop 1 invariant bounds [C06, C11, C20]: 0 <= idx && idx <= len(m.Signatures) && len(m.Signatures) == len(signers) && m.Payload != nil
 //@         && m.Signatures == old(m.Signatures) && m.Payload == old(m.Payload)
-//@   loop 1 invariant counted [C11, C20]: epoch() == old(epoch()) + idx
-//@   loop 1 invariant later_untouched [C11, C20]: forall j Int :: idx <= j && j < len(m.Signatures) && m.Signatures[j] != nil ==> m.Signatures[j].Signature == old(m.Signatures[j].Signature)
-//@   ensures err_slots [C11, C20]: m != nil && err != nil ==> epoch() - old(epoch()) <= len(m.Signatures)
+//@   loop 1 invariant counted [C06, C11, C20]: epoch() == old(epoch()) + idx
+//@   loop 1 invariant later_untouched [C06, C11, C20]: forall j Int :: idx <= j && j < len(m.Signatures) && m.Signatures[j] != nil ==> m.Signatures[j].Signature == old(m.Signatures[j].Signature)
+//@   ensures err_slots [C06, C11, C20]: m != nil && err != nil ==> epoch() - old(epoch()) <= len(m.Signatures)
 //@         && (forall j Int :: epoch() - old(epoch()) <= j && j < len(m.Signatures) && m.Signatures[j] != nil ==> m.Signatures[j].Signature == old(m.Signatures[j].Signature))
-//@   callsite positional [C11] (*Signature).Sign#1: arg0 == m.Signatures[idx] && arg2 == signers[idx] && arg4 == m.Payload && arg5 == external && arg3 == protected
-//@   callsite body_protected [C11, C02] (*Headers).MarshalProtected#1: arg0 == &m.Headers
-//@   modifies frame [C18]: anything
+//@   callsite positional [C06, C11] (*Signature).Sign#1: arg0 == m.Signatures[idx] && arg2 == signers[idx] && arg4 == m.Payload && arg5 == external && arg3 == protected
+//@   callsite body_protected [C02, C06, C11] (*Headers).MarshalProtected#1: arg0 == &m.Headers
+//@   modifies frame [C06, C18]: anything
 
 // ===================================================================
 // headers.go: cross-bucket IV rule, marshal  (C13, C08, C09)
@@ -544,21 +544,21 @@ package cose
 //@   ensures int_norm: isIntKey(label) && labelOK(label) ==> result0 is int64 && result0.(int64) == intOf(label)
 //@   ensures str_norm: label is string ==> result0 == label
 //@   ensures bad_nil: !result1 ==> result0 == nil
-//@   modifies frame [C18]: nothing
+//@   modifies frame [C06, C18]: nothing
 
 //@ func lookupLabel
 //@   ensures iff: result1 <==> has(h, label)
 //@   ensures value: result1 ==> exists k any :: k in h && isIntKey(k) && intOf(k) == label && result0 == h[k]
 //@   ensures exact_first: int64(label) in h ==> result0 == h[int64(label)]
 //@   ensures absent_nil: !result1 ==> result0 == nil
-//@   modifies frame [C18]: nothing
+//@   modifies frame [C06, C18]: nothing
 //@   loop 1 invariant none_yet: !(int64(label) in h) && (forall k any :: k in seen ==> !(isIntKey(k) && intOf(k) == label))
 
 //@ func hasLabel
 //@   requires hashable: any_hashable(label)
 //@   ensures int_iff: isIntKey(label) && labelOK(label) ==> (result <==> has(h, intOf(label)))
 //@   ensures other_iff: !(isIntKey(label) && labelOK(label)) ==> (result <==> label in h)
-//@   modifies frame [C18]: nothing
+//@   modifies frame [C06, C18]: nothing
 
 // ===================================================================
 // headers.go: RFC 9052 section 3.1 rules (C13, C05, C07, C08)
@@ -568,29 +568,36 @@ package cose
 //@ spec canUintV(v any) Bool = isUnsignedKey(v) || (isSignedKey(v) && intOf(v) >= 0)
 // content type / typ: uint, or a non-empty type/subtype text without leading or trailing blank
 //@ spec ctOK(v any) Bool = canUintV(v) || (v is string && len(v.(string)) > 0 && v.(string)[0] != 32 && v.(string)[len(v.(string)) - 1] != 32 && str_count(v.(string), "/") == 1)
-// label e (an element of crit) names a parameter that is present in bucket h
-//@ spec present(h map[any]any, e any) Bool = (isIntKey(e) && labelOK(e)) ? has(h, intOf(e)) : (e in h)
-//@ spec critOK(v any, h map[any]any) Bool = v is []any && len(v.([]any)) > 0
-//@       && (forall i Int :: 0 <= i && i < len(v.([]any)) ==> (isIntKey(v.([]any)[i]) || v.([]any)[i] is string) && present(h, v.([]any)[i]))
+// State-independent forms (the map's key set D, its values V and the []any element store EA are passed explicitly), so
+// that each occurrence is the same SMT term; the wrappers below read them from the current state.
+// label e (an element of crit) names a parameter that is present in the bucket with key set D
+//@ spec presentD(D AnySet, e any) Bool = (isIntKey(e) && labelOK(e)) ? has_int(D, intOf(e)) : (e in D)
+//@ spec critOKD(v any, D AnySet, EA AnyElems) Bool = v is []any && len(v.([]any)) > 0
+//@       && (forall i Int :: 0 <= i && i < len(v.([]any)) ==> (isIntKey(elemat(EA, v.([]any), i)) || elemat(EA, v.([]any), i) is string) && presentD(D, elemat(EA, v.([]any), i)))
+//@ spec present(h map[any]any, e any) Bool = presentD(mapdom(h), e)
+//@ spec critOK(v any, h map[any]any) Bool = critOKD(v, mapdom(h), anyelems())
 
 //@ func ensureCritical
-//@   ensures iff [C05, C07, C08, C13]: result == nil <==> critOK(value, headers)
-//@   modifies frame [C18]: nothing
+//@   ensures iff [C05, C06, C07, C08, C13]: result == nil <==> critOK(value, headers)
+//@   modifies frame [C06, C18]: nothing
 //@   loop 1 invariant bounds: 0 <= idx && idx <= len(value.([]any)) && value is []any
 //@   loop 1 invariant prefix: forall j Int :: 0 <= j && j < idx ==> (isIntKey(value.([]any)[j]) || value.([]any)[j] is string) && present(headers, value.([]any)[j])
 
 //@ spec isCsig(v any) Bool = v is *Countersignature || v is []*Countersignature
-// the rule RFC 9052 section 3.1 attaches to the parameter with integer label l and value v in bucket h
-//@ spec RuleAt(l Int, v any, h map[any]any, prot Bool) Bool =
+// the rule RFC 9052 section 3.1 attaches to the parameter with integer label l and value v in a bucket with key set D
+//@ spec RuleAtD(l Int, v any, D AnySet, EA AnyElems, prot Bool) Bool =
 //@          (l == 1 ==> v is Algorithm || canIntV(v) || v is string)
-//@       && (l == 2 ==> prot && critOK(v, h))
+//@       && (l == 2 ==> prot && critOKD(v, D, EA))
 //@       && (l == 3 ==> ctOK(v)) && (l == 16 ==> ctOK(v))
 //@       && (l == 4 ==> v is []byte)
-//@       && (l == 5 ==> v is []byte && !has(h, 6))
-//@       && (l == 6 ==> v is []byte && !has(h, 5))
+//@       && (l == 5 ==> v is []byte && !has_int(D, 6))
+//@       && (l == 6 ==> v is []byte && !has_int(D, 5))
 //@       && (l == 7 ==> !prot && isCsig(v)) && (l == 11 ==> !prot && isCsig(v))
 //@       && (l == 9 ==> !prot && v is []byte) && (l == 12 ==> !prot && v is []byte)
-//@ spec Rules(h map[any]any, prot Bool) Bool = (forall k any :: k in h ==> labelOK(k) && (isIntKey(k) ==> RuleAt(intOf(k), h[k], h, prot))) && uniqueLabels(h)
+//@ spec uniqueD(D AnySet) Bool = forall k1 any, k2 any :: k1 in D && k2 in D && isIntKey(k1) && isIntKey(k2) && intOf(k1) == intOf(k2) ==> k1 == k2
+//@ spec RulesD(D AnySet, V AnyMap, EA AnyElems, prot Bool) Bool = (forall k any :: k in D ==> labelOK(k) && (isIntKey(k) ==> RuleAtD(intOf(k), V[k], D, EA, prot))) && uniqueD(D)
+//@ spec RuleAt(l Int, v any, h map[any]any, prot Bool) Bool = RuleAtD(l, v, mapdom(h), anyelems(), prot)
+//@ spec Rules(h map[any]any, prot Bool) Bool = RulesD(mapdom(h), mapval(h), anyelems(), prot)
 //@ spec normKey(k any) any = isIntKey(k) ? any(int64(intOf(k))) : k
 
 //@ func validateHeaderParameters
@@ -623,13 +630,13 @@ package cose
 //@             && Rules(asmap(p), true) && int64Labels(asmap(p)))
 
 //@ func (*ProtectedHeader).UnmarshalCBOR
-//@   ensures accept [C04, C05, C13]: err == nil ==> h != nil && protDecoded(bytes(data), *h) && fresh(*h)
-//@   ensures alg_typed [C04]: err == nil ==> (forall k any :: k in asmap(*h) && isIntKey(k) && intOf(k) == 1 && algIsInt(asmap(*h)[k]) ==>
+//@   ensures accept [C04, C05, C06, C13]: err == nil ==> h != nil && protDecoded(bytes(data), *h) && fresh(*h)
+//@   ensures alg_typed [C04, C06]: err == nil ==> (forall k any :: k in asmap(*h) && isIntKey(k) && intOf(k) == 1 && algIsInt(asmap(*h)[k]) ==>
 //@         asmap(*h)[k] is Algorithm && algIsInt(dec_map_val(decMode, bstr_content(bytes(data)))[k]) && algInt(asmap(*h)[k]) == algInt(dec_map_val(decMode, bstr_content(bytes(data)))[k]))
-//@   ensures values_kept [C04, C05, C09]: err == nil && blen(bstr_content(bytes(data))) > 0 ==> (forall k any :: k in asmap(*h) && !(isIntKey(k) && intOf(k) == 1) ==>
+//@   ensures values_kept [C04, C05, C06, C09]: err == nil && blen(bstr_content(bytes(data))) > 0 ==> (forall k any :: k in asmap(*h) && !(isIntKey(k) && intOf(k) == 1) ==>
 //@         asmap(*h)[k] == dec_map_val(decMode, bstr_content(bytes(data)))[k])
-//@   ensures err_frame [C19]: err != nil && h != nil ==> *h == old(*h)
-//@   modifies frame [C18, C19]: *h
+//@   ensures err_frame [C06, C19]: err != nil && h != nil ==> *h == old(*h)
+//@   modifies frame [C06, C18, C19]: *h
 
 // what the Signature / Countersignature decoder establishes (also used for nested countersignatures)
 //@ spec headersDecoded(h Headers) Bool = protDecoded(bytes(h.RawProtected), h.Protected) && unprotDecoded(bytes(h.RawUnprotected), h.Unprotected) && CrossIV(h.Protected, h.Unprotected)
@@ -658,18 +665,18 @@ package cose
 //@   modifies frame [C18]: nothing
 
 //@ func (*UnprotectedHeader).UnmarshalCBOR
-//@   ensures accept [C05, C13]: err == nil ==> h != nil && unprotDecoded(bytes(data), *h) && fresh(*h)
-//@   ensures err_frame [C19]: err != nil && h != nil ==> *h == old(*h)
-//@   modifies frame [C18, C19]: *h
+//@   ensures accept [C05, C06, C13]: err == nil ==> h != nil && unprotDecoded(bytes(data), *h) && fresh(*h)
+//@   ensures err_frame [C06, C19]: err != nil && h != nil ==> *h == old(*h)
+//@   modifies frame [C06, C18, C19]: *h
 //@   loop 1 invariant keys_copied: forall k any :: (k in header) <==> (k in seen)
 //@   loop 1 invariant seen_dom: forall k any :: k in seen ==> k in ranged
 //@   loop 1 invariant len_ok: len(header) >= 0
 
 //@ func (*Headers).UnmarshalFromRaw
 //@   requires nonnil: h != nil
-//@   ensures ok [C05, C13]: err == nil ==> headersDecoded(*h) && fresh(h.Protected) && fresh(h.Unprotected)
-//@   ensures raw_kept [C09, C19]: h.RawProtected == old(h.RawProtected) && h.RawUnprotected == old(h.RawUnprotected)
-//@   modifies frame [C18, C19]: h.Protected, h.Unprotected
+//@   ensures ok [C05, C06, C13]: err == nil ==> headersDecoded(*h) && fresh(h.Protected) && fresh(h.Unprotected)
+//@   ensures raw_kept [C06, C09, C19]: h.RawProtected == old(h.RawProtected) && h.RawUnprotected == old(h.RawUnprotected)
+//@   modifies frame [C06, C18, C19]: h.Protected, h.Unprotected
 
 //@ func (*Signature).UnmarshalCBOR
 //@   ensures accept [C05, C09]: err == nil ==> sigDecoded(bytes(data), s)
@@ -689,17 +696,17 @@ package cose
 
 //@ func (*Sign1Message).doUnmarshal
 //@   requires nonnil: m != nil
-//@   ensures accept [C05, C09]: err == nil ==> len(data) > 0 && (bat(bytes(data), 0) == 132 ==> sign1Decoded(bytes(data), m))
+//@   ensures accept [C05, C06, C09]: err == nil ==> len(data) > 0 && (bat(bytes(data), 0) == 132 ==> sign1Decoded(bytes(data), m))
 //@         && dec_shape_err(decModeWithTagsForbidden, bytes(data), "github.com/veraison/go-cose.sign1Message") == nil
-//@   ensures no_alias [C19]: err == nil ==> sign1Fresh(m)
-//@   ensures err_frame [C19]: err != nil ==> *m == old(*m)
-//@   modifies frame [C18, C19]: *m
+//@   ensures no_alias [C06, C19]: err == nil ==> sign1Fresh(m)
+//@   ensures err_frame [C06, C19]: err != nil ==> *m == old(*m)
+//@   modifies frame [C06, C18, C19]: *m
 
 //@ func (*Sign1Message).UnmarshalCBOR
-//@   ensures accept [C05, C09]: err == nil ==> m != nil && len(data) >= 2 && bat(bytes(data), 0) == 210 && sign1Decoded(bytes(data[1:]), m)
-//@   ensures no_alias [C19]: err == nil ==> sign1Fresh(m)
-//@   ensures err_frame [C19]: err != nil && m != nil ==> *m == old(*m)
-//@   modifies frame [C18, C19]: *m
+//@   ensures accept [C05, C06, C09]: err == nil ==> m != nil && len(data) >= 2 && bat(bytes(data), 0) == 210 && sign1Decoded(bytes(data[1:]), m)
+//@   ensures no_alias [C06, C19]: err == nil ==> sign1Fresh(m)
+//@   ensures err_frame [C06, C19]: err != nil && m != nil ==> *m == old(*m)
+//@   modifies frame [C06, C18, C19]: *m
 
 //@ func (*UntaggedSign1Message).UnmarshalCBOR
 //@   ensures accept [C05, C09]: err == nil ==> m != nil && sign1Decoded(bytes(data), m)
@@ -916,30 +923,30 @@ package cose
 //@       && (forall k any :: k in asmap(u) ==> labelOK(k) && (isIntKey(k) ==> envUnprotRule(intOf(k))))
 
 //@ func validateHash
-//@   ensures iff [C12]: result == nil <==> hashLenOK(alg, len(value))
-//@   modifies frame [C18]: nothing
+//@   ensures iff [C06, C12]: result == nil <==> hashLenOK(alg, len(value))
+//@   modifies frame [C06, C18]: nothing
 
 //@ func (ProtectedHeader).PayloadHashAlgorithm
-//@   ensures absent [C12]: !has(asmap(h), 258) ==> err == ErrAlgorithmNotFound && result == 0
-//@   ensures present [C12]: has(asmap(h), 258) ==> exists k any :: k in asmap(h) && isIntKey(k) && intOf(k) == 258
+//@   ensures absent [C06, C12]: !has(asmap(h), 258) ==> err == ErrAlgorithmNotFound && result == 0
+//@   ensures present [C06, C12]: has(asmap(h), 258) ==> exists k any :: k in asmap(h) && isIntKey(k) && intOf(k) == 258
 //@      && (algIsInt(asmap(h)[k]) ==> err == nil && result == algInt(asmap(h)[k]))
 //@      && (!algIsInt(asmap(h)[k]) ==> err == ErrInvalidAlgorithm)
-//@   modifies frame [C18]: nothing
+//@   modifies frame [C06, C18]: nothing
 
 //@ func setHashEnvelopeProtectedHeader
 //@   requires nonnil: payload != nil
-//@   ensures fresh_map [C12, C18]: result != nil && fresh(result)
-//@   ensures dom [C12]: forall k any :: (k in asmap(result)) <==> (k in asmap(base) || k == int64(258) || (k == int64(259) && payload.PreimageContentType != nil) || (k == int64(260) && payload.Location != ""))
-//@   ensures vals [C12]: asmap(result)[int64(258)] == Algorithm(payload.HashAlgorithm)
+//@   ensures fresh_map [C06, C12, C18]: result != nil && fresh(result)
+//@   ensures dom [C06, C12]: forall k any :: (k in asmap(result)) <==> (k in asmap(base) || k == int64(258) || (k == int64(259) && payload.PreimageContentType != nil) || (k == int64(260) && payload.Location != ""))
+//@   ensures vals [C06, C12]: asmap(result)[int64(258)] == Algorithm(payload.HashAlgorithm)
 //@         && (payload.PreimageContentType != nil ==> asmap(result)[int64(259)] == payload.PreimageContentType)
 //@         && (payload.Location != "" ==> asmap(result)[int64(260)] == payload.Location)
 //@         && (forall k any :: k in asmap(base) && k != int64(258) && k != int64(259) && k != int64(260) ==> asmap(result)[k] == asmap(base)[k])
-//@   modifies frame [C12, C18]: nothing
+//@   modifies frame [C06, C12, C18]: nothing
 
 //@ func validateHashEnvelopeHeaders
 //@   requires nonnil: headers != nil
-//@   ensures iff [C12]: result == nil <==> EnvRules(headers.Protected, headers.Unprotected)
-//@   modifies frame [C18]: nothing
+//@   ensures iff [C06, C12]: result == nil <==> EnvRules(headers.Protected, headers.Unprotected)
+//@   modifies frame [C06, C18]: nothing
 //@   loop 1 invariant seen_ok: forall k any :: k in seen ==> k in ranged && labelOK(k) && (isIntKey(k) ==> envProtRule(intOf(k), ranged[k]))
 //@   loop 1 invariant found_iff: foundPayloadHashAlgorithm <==> has_int(seen, 258)
 //@   loop 2 invariant seen_ok2: forall k any :: k in seen ==> k in ranged && labelOK(k) && (isIntKey(k) ==> envUnprotRule(intOf(k)))
@@ -1030,8 +1037,8 @@ package cose
 //@   modifies frame [C18]: nothing
 
 //@ func curveSize
-//@   ensures table [C14, C15]: result == (crv == 1 ? 32 : (crv == 2 ? 48 : (crv == 3 ? 66 : 0)))
-//@   modifies frame [C18]: nothing
+//@   ensures table [C06, C14, C15]: result == (crv == 1 ? 32 : (crv == 2 ? 48 : (crv == 3 ? 66 : 0)))
+//@   modifies frame [C06, C18]: nothing
 
 // the algorithm fixed by key type and curve (0: none)
 //@ spec algOfCurve(t KeyType, c Curve) Algorithm = t == 2 ? (c == 1 ? -7 : (c == 2 ? -35 : (c == 3 ? -36 : 0))) : ((t == 1 && c == 6) ? -8 : 0)
@@ -1042,8 +1049,8 @@ package cose
 //@   modifies frame [C18]: nothing
 
 //@ func (Key).canOp
-//@   ensures iff [C15]: result <==> (k.Ops == nil || (exists i Int :: 0 <= i && i < len(k.Ops) && k.Ops[i] == op))
-//@   modifies frame [C18]: nothing
+//@   ensures iff [C06, C15]: result <==> (k.Ops == nil || (exists i Int :: 0 <= i && i < len(k.Ops) && k.Ops[i] == op))
+//@   modifies frame [C06, C18]: nothing
 //@   loop 1 invariant bounds: 0 <= idx && idx <= len(k.Ops) && k.Ops != nil
 //@   loop 1 invariant none_yet: forall j Int :: 0 <= j && j < idx ==> k.Ops[j] != op
 
@@ -1070,9 +1077,9 @@ package cose
 
 //@ func (*Key).AlgorithmOrDefault
 //@   requires nonnil: k != nil
-//@   ensures fun [C14, C15]: (k.Algorithm != 0 ==> result0 == k.Algorithm && result1 == nil)
+//@   ensures fun [C06, C14, C15]: (k.Algorithm != 0 ==> result0 == k.Algorithm && result1 == nil)
 //@         && (k.Algorithm == 0 ==> result0 == algOfCurve(k.Type, pCurve(k.Params)) && (result1 == nil <==> algOfCurve(k.Type, pCurve(k.Params)) != 0))
-//@   modifies frame [C18]: nothing
+//@   modifies frame [C06, C18]: nothing
 
 //@ func (*Key).PublicKey
 //@   requires nonnil: k != nil
@@ -1084,7 +1091,7 @@ package cose
 //@               && result0.(*ecdsa.PublicKey).Curve == (pCurve(k.Params) == 1 ? curve_p256 : (pCurve(k.Params) == 2 ? curve_p384 : curve_p521)))
 //@         && (k.Type == 1 ==> result0 is ed25519.PublicKey && result0.(ed25519.PublicKey) == pBytes(k.Params, -2) && len(pBytes(k.Params, -2)) == 32)
 //@   ensures err_nil: result1 != nil ==> result0 == nil
-//@   modifies frame [C18]: nothing
+//@   modifies frame [C06, C18]: nothing
 
 //@ func (*Key).PrivateKey
 //@   requires nonnil: k != nil
@@ -1099,7 +1106,7 @@ package cose
 //@               && bytes(result0.(ed25519.PrivateKey)[:32]) == bytes(pBytes(k.Params, -4))
 //@               && (len(pBytes(k.Params, -2)) > 0 ==> bytes(result0.(ed25519.PrivateKey)[32:]) == bytes(pBytes(k.Params, -2))))
 //@   ensures err_nil: result1 != nil ==> result0 == nil
-//@   modifies frame [C18]: nothing
+//@   modifies frame [C06, C18]: nothing
 
 //@ func (*Key).Signer
 //@   requires nonnil: k != nil
